@@ -26,6 +26,7 @@ def run(ctx):
     P = 'C05'
     r_len(ctx, P)
     header_derivation(ctx, P)
+    sum_type_header_once(ctx, P)
     mutators(ctx, P)
     header_freshness(ctx, P)
     version_conditional_fields(ctx, P)
@@ -177,6 +178,27 @@ def header_derivation(ctx, P):
                 stale.append(i)
         ctx.check(P + ':S05-2:stored-header-only-for-indeterminate', 'R-dom', 'to_writer_with_header writes the stored header back only when its length is indeterminate (maybe_len() == None)',
                   not stale and bool(fp), function=b2.path, site=site(b2, stale[0]) if stale else None)
+
+
+def sum_type_header_once(ctx, P):
+    """`Packet` (the sum of all packet types) serialises each variant WITH its header already (every arm of its Serialize impl calls
+    the variant's to_writer_with_header / write_len_with_header).  The provided PacketTrait methods would prepend a second header
+    computed over that; Packet therefore has to override both with plain delegation."""
+    sb = ctx.body('<packet::packet_sum::Packet as ser::Serialize>::to_writer')
+    if sb is None:
+        return
+    arms = sb.calls(r'PacketTrait::to_writer_with_header$')
+    with_header = len(arms) >= 15
+    rw = ctx.f.body('<packet::packet_sum::Packet as packet::packet_sum::PacketTrait>::to_writer_with_header')
+    rl = ctx.f.body('<packet::packet_sum::Packet as packet::packet_sum::PacketTrait>::write_len_with_header')
+    ov_w = ctx.wrap(rw) if rw is not None else None
+    ov_l = ctx.wrap(rl) if rl is not None else None
+    ok = with_header and ov_w is not None and ov_l is not None \
+        and not ov_w.calls(r'PacketHeader::from_parts$|PacketHeader::to_writer$') and bool(ov_w.calls(r'ser::Serialize::to_writer$')) \
+        and bool(ov_l.calls(r'ser::Serialize::write_len$')) and not ov_l.calls(r'header_len$')
+    ctx.check(P + ':S05-2:sum-type-header-once', 'R-sib', 'Packet::to_writer_with_header / write_len_with_header delegate to its Serialize impl (which already frames every variant) instead of the provided methods that add a header',
+              ok, function='<packet::packet_sum::Packet as packet::packet_sum::PacketTrait>',
+              missing=None if ok else 'Packet uses the provided PacketTrait::to_writer_with_header: a UserId packet is written as [cd 05 cd 03 ...], header twice')
 
 
 def mutators(ctx, P):
